@@ -82,7 +82,7 @@ class Real:
             asyncio.events._set_running_loop(prev)
             self.loop.create_task = orig
 
-    def start_join(self, mode):
+    def start_join(self, mode, wrap=()):
         g = self.g
         orig_join = g.join
 
@@ -92,6 +92,15 @@ class Real:
         g.join = marked_join
 
         async def j():
+            # optionally inside nested timeout blocks whose deadlines are never reached (C12)
+            from contextlib import AsyncExitStack
+            from aiorpcx import timeout_after, ignore_after
+            async with AsyncExitStack() as stack:
+                for w in wrap:
+                    await stack.enter_async_context(timeout_after(10 ** 6) if w == 'timeout' else ignore_after(10 ** 6))
+                await body()
+
+        async def body():
             if mode == 'join':
                 await g.join()
             elif mode == 'aexit':
@@ -179,7 +188,7 @@ def run_case(case):
                 if started:
                     continue
                 started = True
-                R.start_join(case['mode'])
+                R.start_join(case['mode'], case.get('wrap', ()))
                 label = ['start']
             elif kind == 'finish':
                 cand = [t for t in live() if not R.go[t].done()]
